@@ -11,10 +11,12 @@ echo "demo file: $DEMO"
 PKG=./$(dirname $DEMO)
 RUNPAT=$(grep -ohE 'func (Test[A-Za-z0-9_]+)' $DEMO | awk '{print $2}' | paste -sd'|')
 with=$(go test -vet=off -count=1 -run "^($RUNPAT)\$" $PKG 2>&1 | tail -3)
-git stash push -q -- $(git diff --name-only)
+CHANGED=$(git diff --name-only)
+git diff -- $CHANGED > /tmp/wt/.seedpatch.$$ 2>/dev/null || { mkdir -p /tmp/wt; git diff -- $CHANGED > /tmp/wt/.seedpatch.$$; }
+git checkout -- $CHANGED
 without=$(go test -vet=off -count=1 -run "^($RUNPAT)\$" $PKG 2>&1 | tail -3)
 base=$(go test -vet=off -count=1 ./... 2>&1 | grep -E '^--- FAIL' | grep -v FailureLeavesOriginalFile | grep -v -E "$RUNPAT" | head -3)
-git stash pop -q
+git apply /tmp/wt/.seedpatch.$$ && rm -f /tmp/wt/.seedpatch.$$
 full=$(go test -vet=off -count=1 ./... 2>&1 | grep -E '^--- FAIL' | grep -v FailureLeavesOriginalFile | grep -v -E "$RUNPAT" | head -3)
 echo "WITH change (expect FAIL): $(echo "$with" | tail -1)"
 echo "WITHOUT change (expect ok): $(echo "$without" | tail -1)"
